@@ -82,4 +82,24 @@ RollupOK(blocks, types, base, ratio, out) ==
   /\ \A c \in out :
        IF Exact(types, c.f) THEN c.v = RollupAgg(types, blocks, Key(c), base, ratio)
                             ELSE c.v \in {d.v : d \in RollupSources(blocks, Key(c), base, ratio)}
+
+\* ---- several source families into ONE target family (C04): all hours of all days of a month roll up into the month
+\* family of the 1h target, all hours of a day into the day family of the 5min target.  Every source family has its
+\* own base slot; with its slots moved to base * ratio + slot (the slot on the source-interval axis of the target
+\* family) the whole lot is one rollup with base 0: (base * ratio + s) \div ratio = base + s \div ratio.
+\* srcs: sequence of [base, blocks (sequence of blocks of that source family, one per source file)]
+ShiftBlock(b, off) == {[s |-> c.s, f |-> c.f, slot |-> off + c.slot, v |-> c.v] : c \in b}
+RECURSIVE ShiftedFrom(_, _, _)
+ShiftedFrom(srcs, ratio, j) ==
+  IF j > Len(srcs) THEN << >>
+  ELSE [i \in 1..Len(srcs[j].blocks) |-> ShiftBlock(srcs[j].blocks[i], srcs[j].base * ratio)] \o ShiftedFrom(srcs, ratio, j + 1)
+ShiftedSources(srcs, ratio) == ShiftedFrom(srcs, ratio, 1)
+\* what the target family must hold after all those source files were rolled up (each exactly once), in any number
+\* of rollup passes
+MultiRollupOK(srcs, types, ratio, out) == RollupOK(ShiftedSources(srcs, ratio), types, 0, ratio, out)
+\* the reference rollup of one source family (first/last: any contributed value)
+RefRollup(blocks, types, base, ratio) ==
+  {[s |-> k[1], f |-> k[2], slot |-> k[3],
+    v |-> IF Exact(types, k[2]) THEN RollupAgg(types, blocks, k, base, ratio)
+          ELSE (CHOOSE c \in RollupSources(blocks, k, base, ratio) : TRUE).v] : k \in RollupKeys(blocks, base, ratio)}
 =============================================================================
